@@ -405,7 +405,9 @@ def main(argv=None):
     for status, shard, payload in results:
         if status != 'ok':
             if not any(h.startswith('shard') for h in harness_errors):
-                harness_errors.append('shard %s crashed:\n%s' % (shard, '\n'.join(payload.splitlines()[-60:])))
+                lines = payload.splitlines()
+                cut = next((k for k, ln in enumerate(lines) if ln.startswith('Failing test case')), len(lines))
+                harness_errors.append('shard %s crashed:\n%s' % (shard, '\n'.join(lines[max(0, cut - 45):cut + 60])))
             else:
                 harness_errors.append('shard %s crashed (same run, details omitted)' % shard)
             continue
